@@ -4,7 +4,8 @@ Proof: GardenVerif.Props.C15 over the models Ty.unify / Ty.unifyAll.
 Tie: `unify` / `unify_all` ops of the hooked garden vs the Lean driver.
 Direct oracle on the implementation: every successful unify(a, b) = c has
 a <: c and b <: c by the real is_subtype; unify(a, a) = a; unify_all of a list
-is a supertype of each element; unify_all of n copies of a is a.
+is a supertype of each element; unify_all of n copies of a is a. Program level (the call sites of unify_all in
+the checker): see combo_programs below.
 """
 from . import types_gen as G
 
@@ -106,3 +107,75 @@ def run(ctx):
     ctx.cov["unify_all_elements_checked_as_below_join"] = len(owners)
     ctx.assumptions += ["models Ty.unify/Ty.unifyAll are hand-written from src/checks/type_checker.rs:2944-3017",
                         "unify_all_upper is proved for well-formed error-free element types (uses C14 transitivity)"]
+    run_programs(ctx)
+
+
+# ------------------------------------------------------------------ program level: combination points
+# The proof and the hook correspondence are about unify / unify_all themselves. The property is about the
+# places where the checker USES them (list and dict literal elements, if/else branches, match arms incl. `_`
+# arms). A combined type that does not cover one of the combined expressions shows as an ACCEPTED program
+# that passes the combined value where only the other arm's type is allowed and raises a type error when
+# that arm runs. (Seeded change C15-2 dropped the `_` arm's type from the types handed to unify_all.)
+VALS = [("Int", "1"), ("Int", "2"), ("String", '"s"'), ("Bool", "True"), ("List<Int>", "[1]"),
+        ("List<String>", '["a"]'), ("Option<Int>", "Some(1)"), ("Option<String>", 'Some("a")'),
+        ("(Int, String)", '(1, "a")'), ("(Int, String, Bool)", '(1, "a", True)'), ("Unit", "Unit")]
+
+
+def combo_programs():
+    out = []
+    for (ta, ea) in VALS:
+        for (tb, eb) in VALS:
+            if ta == tb and ea == eb:
+                continue
+            points = {
+                "if-else": "if c { %s } else { %s }" % (ea, eb),
+                "match-variants": "match o { Some(v) => %s None => %s }" % (ea, eb),
+                "match-wildcard": "match o { Some(v) => %s _ => %s }" % (ea, eb),
+                "match-wildcard-first": "match o { None => %s _ => %s }" % (ea, eb),
+                "list-index": "[%s, %s]" % (ea, eb),
+            }
+            for point, combo in points.items():
+                for use_t, which in ((ta, "first"), (tb, "second")):
+                    if point == "list-index":
+                        body = "  let xs = %s\n  for x in (xs) {\n    use(x)\n  }\n" % combo
+                    else:
+                        body = "  let x = %s\n  use(x)\n" % combo
+                    src = ("fun use(v: %s): Unit {\n  Unit\n}\nfun f(c: Bool, o: Option<Int>): Unit {\n%s  Unit\n}\n"
+                           "f(True, Some(1))\nf(False, None)\n" % (use_t, body))
+                    out.append((point, ta, tb, which, src))
+    return out
+
+
+def run_programs(ctx):
+    from . import c16 as C16
+    from .common import hexs
+    progs = combo_programs()
+    if ctx.quick():
+        progs = ctx.rng.sample(progs, 500)
+    srcs = [p[4] for p in progs]
+    chk = ctx.garden_batch(["check " + hexs(s) for s in srcs], timeout=900)
+    runs = ctx.garden_batch(["machine %s - 40000 - notrace" % hexs(s) for s in srcs], timeout=900)
+    acc = typeerr = 0
+    for (point, ta, tb, which, src), c, r in zip(progs, chk, runs):
+        rv = C16.real_verdict(c)
+        if rv is None or rv[0]:
+            ctx.broken.append(dict(kind="generator", what="combination program did not parse / check crashed", src=src))
+            continue
+        accepted = not rv[1]
+        cls, is_type, msg = C16.real_outcome(r)
+        ctx.case(("combo", point, ta, tb, which), ta != tb)
+        if accepted:
+            acc += 1
+            if is_type:
+                typeerr += 1
+                ctx.fail("C15/combined-type-does-not-cover/%s" % point,
+                         "check accepts a program that passes the value of `%s` (arms of type %s and %s) where only %s "
+                         "is allowed, and the run raises: %s" % (point, ta, tb, ta if which == "first" else tb, msg[:160]),
+                         src=src, replay="garden check f.gdn (no error); garden run f.gdn")
+    ctx.rule += (" PROGRAM LEVEL: for every ordered pair of 11 typed expressions and every combination point "
+                 "(if/else, match over variants, match with a `_` arm, list literal) a program passes the combined "
+                 "value where only one arm's type is allowed and runs both arms: an accepted program must not raise "
+                 "a type error (500 sampled at quick, all 1200 at thorough).")
+    ctx.cov["combination_programs"] = len(progs)
+    ctx.cov["combination_programs_accepted"] = acc
+    ctx.log("combination points: %d programs, %d accepted, %d accepted with a runtime type error" % (len(progs), acc, typeerr))
